@@ -285,6 +285,89 @@ def rs (c : List String) (impl : List String) : String :=
     verdict (joinWith " " impl == out) spec out
   | _, _, _ => "E E bad-case"
 
+/-! ### two real processes: hot upgrade under load (kind up2), SIGTERM of one process under load (kind gs2) -/
+
+/-- the stage manager's run of a started process that receives one stop notice: (calls, exit code) -/
+def smAfter (act : Int) (handler : Option Bool) : List String × Int :=
+  let m := smRun (smInit false) ((List.replicate Gen.Shutdown.runSeq.length (SMEv.boot none false false)) ++
+    [SMEv.notice act handler false, SMEv.mainStop false])
+  (m.calls, m.exit.getD (-1))
+
+/-- `up2 g= drain= h1= bp= bg= win= dmax= lo= hi= sa= => fail= dup= bad= refused= exit= code= newserves= handed= gamoved= h1moved=`
+(times in ms).  The prediction is assembled from the models of the pieces: the old process's step list
+(UpgHandshake, ready byte at instant 0) with the exit timer of UpgTiming gives the window of its exit and the instants
+at which each process accepts; the Shutdown model at stage Upgrading says whether a request decoded before the stop is
+waited for and that the inherited socket stays open; UpgTiming.fits whether every hand-over happens before the exit;
+HandoverQueue whether the answers written during a hand-over survive; the stage manager model the exit code.
+Reference (literal): nothing failed, nothing was answered twice or wrongly, no connect was refused, the old process
+exited by itself inside the window, the new one serves. -/
+def up2 (c impl : List String) : String :=
+  match kvNat c "g", kvNat c "drain", kvNat c "h1", kvNat c "bp", kvNat c "bg", kvNat c "win", kvNat c "dmax", kvNat c "lo", kvNat c "hi", kvNat c "sa" with
+  | some g, some drain, some h1, some bp, some bg, some win, some dmax, some lo, some hi, some sa =>
+    let R : Nat := Gen.UpgTiming.defaultConnReadTimeoutMs
+    let G := Model.UpgTiming.graceful g
+    let T := Model.UpgTiming.transferTimeoutAfterStart false g      -- the old process was started cold
+    let life := Model.UpgTiming.lifetime G R
+    let oMin := Model.UpgHandshake.upgrade 0 drain [] life           -- nothing in flight when the old process stops accepting
+    let oMax := Model.UpgHandshake.upgrade 0 drain [drain] life      -- requests in flight during the whole drain time
+    let exit := match oMin.exitAt, oMax.exitAt with
+      | some a, some b => if a < lo then "early" else if hi < b + sa then "late" else "intime"
+      | _, _ => "never"
+    let horizon := (oMax.exitAt.getD 0) + 1000
+    let gaps := (List.range (horizon / 50 + 1)).filter (fun i =>
+      !(Model.UpgHandshake.oldAccepts oMax (i * 50) || Model.UpgHandshake.newAccepts oMax 0 (i * 50))
+      || !(Model.UpgHandshake.oldAccepts oMin (i * 50) || Model.UpgHandshake.newAccepts oMin 0 (i * 50)))
+    let lisOld := (lisShutdown ⟨Gen.Shutdown.ListenerRunning, true, true, true, true⟩ Gen.Shutdown.Upgrading).1
+    let refused := if gaps.isEmpty && probeResult lisOld != "ref" then 0 else 1
+    -- a request waiting for the upstream when the old process shuts its servers down (stage Upgrading): answered
+    let tickMs : Nat := Gen.Shutdown.drainSleepMs.toNat
+    let waits (proto : String) (n : Nat) : Bool :=
+      n == 0 || (let s1 := { gsModel proto Gen.Shutdown.Upgrading "wait" n (drain / tickMs) (min (dmax / tickMs + 1) (drain / tickMs)) with exited := false }
+                 outcome s1 (Model.Shutdown.run s1 [Ev.respDone (n - 1)]) (n - 1) == "ok")
+    -- the answers written while a connection is being handed over
+    let ws := List.range win
+    let q1 := Model.HandoverQueue.runG ws (Model.HandoverQueue.harnessWindow win)
+    let q2 := Model.HandoverQueue.run Gen.HandoverQueue.enqueueMode Gen.HandoverQueue.writeBufferCap q1 (Model.HandoverQueue.harnessRest win)
+    let writesKept := ws.all (fun i => q2.forwarded.contains i) && q2.dropped.isEmpty
+    let handsOver := Gen.Shutdown.transferableXprotocol && Model.UpgTiming.fits T G R
+    let fail := (if waits "h1" h1 then 0 else 1) + (if waits "bolt" (bp + bg) then 0 else 1)
+      + (if bp == 0 || (handsOver && writesKept) then 0 else 1)
+    let (_, code) := smAfter Gen.Shutdown.actUpgrade (some true)
+    let newServes := Model.UpgHandshake.newAccepts oMax 0 horizon && Model.UpgHandshake.newAccepts oMin 0 horizon
+    let out := s!"fail={fail} dup=0 bad=0 refused={refused} exit={exit} code={code} newserves={if newServes then 1 else 0} handed={if handsOver then bp else 0} gamoved={if Gen.Shutdown.xprotocolSendsGoAwayFrame then bg else 0} h1moved={if Gen.Shutdown.transferableHttp1 then 0 else h1}"
+    let gi (k : String) := (kv impl k).getD "?"
+    -- reference window, literal: 3 s pause + twice the graceful timeout + twice the 15 s read timeout after the ready
+    -- byte at the earliest; the drain time and the start-up allowance on top at the latest
+    let window := lo == 3000 + 2 * g + 30000 && hi == sa + 3000 + drain + 2 * g + 30000
+    let spec := gi "fail" == "0" && gi "dup" == "0" && gi "bad" == "0" && gi "refused" == "0" && gi "exit" == "intime"
+      && gi "newserves" == "1" && window
+    verdict (joinWith " " impl == out) spec out
+  | _, _, _, _, _, _, _, _, _, _ => "E E bad-case"
+
+/-- `gs2 drain= h1= bp= win= dmax= hi= => fail= dup= bad= exitfirst= exit= code= after=`: every request was received
+completely before SIGTERM and is answered by the upstream within dmax ms. -/
+def gs2 (c impl : List String) : String :=
+  match kvNat c "drain", kvNat c "h1", kvNat c "bp", kvNat c "dmax", kvNat c "hi" with
+  | some drain, some h1, some bp, some dmax, some hi =>
+    let (calls, code) := smAfter ((Gen.Shutdown.signalActions.find? (fun p => p.1 == "SIGTERM")).map (·.2) |>.getD (-1)) none
+    let stage := if calls.contains "shutdown@8" then Gen.Shutdown.GracefulStopping else Gen.Shutdown.Running
+    let graceful := calls.any (fun x => x.startsWith "shutdown@")
+    let tickMs : Nat := Gen.Shutdown.drainSleepMs.toNat
+    let hold := dmax / tickMs + 1
+    let runs := (if h1 > 0 then [gsModel "h1" stage "wait" h1 (drain / tickMs) hold] else [])
+      ++ (if bp > 0 then [gsModel "bolt" stage "wait" bp (drain / tickMs) hold] else [])
+    let exitFirst := !graceful || runs.any (·.exited)
+    let after := match runs with
+      | s :: _ => probeResult s.lis
+      | [] => "ref"
+    let exit := if min drain dmax + 3000 ≤ hi then "intime" else "late"
+    let out := s!"fail={if exitFirst then 1 else 0} dup=0 bad=0 exitfirst={if exitFirst then 1 else 0} exit={exit} code={code} after={after}"
+    let gi (k : String) := (kv impl k).getD "?"
+    let spec := gi "fail" == "0" && gi "dup" == "0" && gi "bad" == "0" && gi "exit" == "intime" && gi "code" == "0" && gi "after" == "ref"
+      && hi == drain + 3000
+    verdict (joinWith " " impl == out) spec out
+  | _, _, _, _, _ => "E E bad-case"
+
 /-! ### hot-upgrade hand-over in one process -/
 
 def up (c : List String) (impl : List String) : String :=
@@ -522,6 +605,8 @@ def run (caseToks impl : List String) : String :=
   | "tf" :: ls :: c => tf ls c impl
   | "up" :: c => up c impl
   | "rs" :: c => rs c impl
+  | "up2" :: c => up2 c impl
+  | "gs2" :: c => gs2 c impl
   | "st" :: c => C11U.st c impl
   | "hw" :: c => C11U.hw c impl
   | "rh" :: c => C11U.rh c impl
